@@ -2,7 +2,7 @@ from __future__ import print_function
 
 import sys
 from bisect import insort
-from ast import iter_fields, Store, Load, NodeVisitor, parse, Tuple, List, AST
+from ast import iter_fields, Store, Load, NodeVisitor, parse, Tuple, List, AST, walk
 
 try:
     from ast import Starred
@@ -346,6 +346,25 @@ def marked(name):
     return SOURCE_MARK in name
 
 
+def char_columns(tree, lines):
+    # type: (AST, list[str]) -> None
+    # the parser counts columns in UTF-8 bytes; the text, the cursor and the
+    # editor count characters
+    wide = {}
+    for i, line in enumerate(lines):
+        data = line.encode('utf-8')
+        if len(data) != len(line):
+            wide[i + 1] = data
+    if not wide:
+        return
+    for node in walk(tree):
+        for ln, col in (('lineno', 'col_offset'), ('end_lineno', 'end_col_offset')):
+            data = wide.get(getattr(node, ln, None))
+            offset = getattr(node, col, None)
+            if data is not None and offset:
+                setattr(node, col, len(data[:offset].decode('utf-8', 'ignore')))
+
+
 class Source(object):
     def __init__(self, source, filename=None, position=None):
         # type: (str, str | None, tuple[int, int] | None) -> None
@@ -372,7 +391,9 @@ class Source(object):
     @cached_property
     def tree(self):
         # type: () -> AST
-        return parse(self.source, self.filename)
+        tree = parse(self.source, self.filename)
+        char_columns(tree, self.lines)
+        return tree
 
     @cached_property
     def lines(self):
